@@ -1,10 +1,13 @@
 SPECIFICATION Spec
 CONSTANTS N = 5 UCap = 7 WakeAll = TRUE WithContent = FALSE
+          Views = {"pub"} ReduceKey = TRUE WireStops = FALSE WireLen = 0
 INVARIANT TypeOK
+INVARIANT KeyIsPublic
 INVARIANT OnlyValidConnected
 INVARIANT Complete
 INVARIANT NeverBad
 INVARIANT WaitingAreDisjoint
 INVARIANT ContentBound
 INVARIANT PublicRoundTrip
+INVARIANT PublicReloadsClean
 INVARIANT PathRoundTrip
